@@ -305,6 +305,7 @@ type scnRun struct {
 	nCb      int
 	maxCb    int
 	over     bool
+	mu       sync.Mutex
 	visitLog bool // append node ids to a list in the store (C10 differential)
 }
 
@@ -726,7 +727,9 @@ func runEngineScenario(cfg EngineCfg, script Script) ([]Event, *scnRun) {
 		var action flyt.Action
 		var err error
 		panicked := false
-		func() {
+		finished := make(chan struct{})
+		go func() {
+			defer close(finished)
 			defer func() {
 				if p := recover(); p != nil {
 					panicked = true
@@ -735,6 +738,22 @@ func runEngineScenario(cfg EngineCfg, script Script) ([]Event, *scnRun) {
 			}()
 			action, err = flyt.Run(ctx, s.nodes[cfg.Top], s.store)
 		}()
+		select {
+		case <-finished:
+		case <-time.After(6 * time.Second):
+			// a run that spins without ever calling back (e.g. looping over a flow that fails silently)
+			s.cancel()
+			select {
+			case <-finished:
+			case <-time.After(3 * time.Second):
+				s.log(Event{"ev": "hang"})
+				hungScenarios++
+				s.mu.Lock()
+				evs := append([]Event{}, s.events...)
+				s.mu.Unlock()
+				return evs, s
+			}
+		}
 		if !panicked {
 			errs := []any{}
 			for _, t := range s.reg.MatchAll(err) {
